@@ -29,6 +29,9 @@ Oracle clauses
   laws            on deep copies of the replicas of every reached world: a+b == b+a, (a+b)+c == a+(b+c),
                   a+a == a, where == is the library's __eq__ plus equality of .value
   roundtrip       from_dict(to_dict(r)) == r and has the same value
+  view            when .value is the specified one, every other public read accessor agrees with it
+                  (GCounter.node_value, PNCounter.increments/decrements, LWWRegister.get()/timestamp,
+                  ORSet.elements / contains / in / len / iter)
   (a merge that disturbs its SOURCE replica is caught by spec-value on the source, trigger 'merge-source')
 """
 from __future__ import annotations
@@ -299,6 +302,12 @@ class World:
                         out.append((f"{self.typ}/same-updates-equal/eq-false-on-equal-values",
                                     f"{NAMES[r]} and {NAMES[s]} received the same updates and both hold the "
                                     f"specified value {reps[r].value!r}, yet {NAMES[r]} == {NAMES[s]} is false"))
+        for r in range(R):
+            if not self._diff(r):
+                for acc, got, want in self._views(r):
+                    out.append((f"{self.typ}/view/{acc}",
+                                f"replica {NAMES[r]} holds the specified value {reps[r].value!r} but its public view "
+                                f"{acc} gives {got!r} instead of {want!r}; updates received: {self._describe_know(r)}"))
         key = tuple(_state_repr(x) for x in reps)
         res = _LAW_CACHE.get(key)
         if res is None:
@@ -309,6 +318,53 @@ class World:
         out += res
         self.law_broken = len(out) > len(self.pending)
         return out
+
+    def _views(self, r):
+        """Every other public read accessor must agree with the specified value (only called when .value does)."""
+        rep = self.reps[r]
+        K = self.know[r]
+        t = self.typ
+        bad = []
+
+        def chk(acc, fn, want):
+            if not hasattr(rep, acc.split("(")[0].strip("_")) and not acc.startswith(("len", "iter", "in")):
+                return
+            try:
+                got = fn()
+            except Exception as exc:  # an accessor that raises is a deviation too
+                got = f"raised {type(exc).__name__}: {exc}"
+            if got != want:
+                bad.append((acc, got, want))
+
+        if t == "GCounter":
+            for nm in NAMES[: self.R] + ["nobody"]:
+                want = sum(self.ops[i][1] for i in K if NAMES[i[0]] == nm)
+                chk("node_value(id)", lambda nm=nm: rep.node_value(nm), want)
+        elif t == "PNCounter":
+            chk("increments", lambda: rep.increments, sum(self.ops[i][1] for i in K if self.ops[i][0] == "inc"))
+            chk("decrements", lambda: rep.decrements, sum(self.ops[i][1] for i in K if self.ops[i][0] == "dec"))
+        elif t == "LWWRegister":
+            best = None
+            for i in K:
+                o = self.ops[i]
+                if best is None or o[2] > best[2]:
+                    best = o
+            chk("get()", lambda: rep.get(), None if best is None else best[1])
+
+            def ts():
+                x = rep.timestamp
+                return None if x is None else (x.physical_ns, x.logical, x.node_id)
+
+            chk("timestamp", ts, None if best is None else best[2])
+        else:
+            spec = self.spec(r)
+            chk("elements", lambda: rep.elements, spec)
+            chk("len()", lambda: len(rep), len(spec))
+            chk("iter()", lambda: sorted(map(repr, rep)), sorted(map(repr, spec)))
+            for e in self.elements:
+                chk("contains(e)", lambda e=e: bool(rep.contains(e)), e in spec)
+                chk("in", lambda e=e: e in rep, e in spec)
+        return bad
 
     def _laws(self):
         out = []
